@@ -837,6 +837,9 @@ func (r *runner) randomCase(i int) *Case {
 		for v := 0; v < g.nvars*2 && v < len(randNames); v++ {
 			bd.Keys[randNames[v]] = bindText(rr)
 		}
+		for _, nm := range boxedOnlyNames {
+			bd.Keys[nm] = bindText(rr)
+		}
 		binds = append(binds, bd)
 	}
 	cs := &Case{Kind: "formula", F: f, Binds: binds, Quoted: p.spaces == 2 && rr.Intn(2) == 0}
